@@ -328,7 +328,7 @@ def run(ck):
     hostile = []
     for hi, h in enumerate(HISTORIES):
         hostile.append(("h%d" % hi, "ctx=9000", h))          # one long-lived hostile context
-        hostile.append(("hr%d" % hi, "ctx=9001 realm=%d" % (hi + 1), h))   # hostile realms of the context the programs share
+        hostile.append(("hr%d" % hi, "ctx=9001 realm=%d budget=4000000000" % (hi + 1), h))   # hostile realms of the context the programs share
     after_ctx = list(hostile) + [("p%d" % i, "ctx=%d drop=1" % (i + 1), p) for i, p in enumerate(progs)]
     rc2, r_ctx, err2 = engine(after_ctx)
     # the instruction budget of the harness is per CONTEXT: sibling realms share it, so the programs are spread over several
@@ -339,12 +339,12 @@ def run(ck):
         cid = 9001 + gi // GROUP
         if gi:
             for hi, h in enumerate(HISTORIES):
-                after_realm.append(("hr%d.%d" % (hi, cid), "ctx=%d realm=%d" % (cid, hi + 1), h))
+                after_realm.append(("hr%d.%d" % (hi, cid), "ctx=%d realm=%d budget=4000000000" % (cid, hi + 1), h))
         for i in range(gi, min(gi + GROUP, len(progs))):
             after_realm.append(("p%d" % i, "ctx=%d realm=%d" % (cid, 100 + i), progs[i]))
     rc3, r_realm, err3 = engine(after_realm)
     rc4, r_pad, err4 = engine(list(reversed(alone)), pad=3_000_017, env={"MALLOC_PERTURB_": "165", "BOA_VERIF_NOISE": "x" * 1000})
-    nd = iso_c = iso_r = 0
+    nd = iso_c = iso_r = budget_skips = 0
     for i, p in enumerate(progs):
         k = "p%d" % i
         b = base.get(k)
@@ -357,6 +357,9 @@ def run(ck):
                                   ("after hostile histories in other contexts", r_ctx, "context-isolation"),
                                   ("in a fresh realm of a context with hostile realms", r_realm, "realm-isolation")):
             o = other.get(k)
+            if o is not None and "NoInstructionsRemain" in o["completion"]:
+                budget_skips += 1       # the harness's per-context instruction budget ran out (sibling realms share it): not a trace difference
+                continue
             if o is None or (o["out"], o["completion"], o["jobs"]) != (b["out"], b["completion"], b["jobs"]):
                 if site == "nondeterministic-trace":
                     nd += 1
@@ -379,6 +382,6 @@ def run(ck):
     ck.oblige("differential:trace(P in a fresh realm | hostile sibling realms) == trace(P) (%d programs)" % len(progs), "differential", iso_r == 0,
               "%d programs differ" % iso_r if iso_r else None)
     ck.coverage.update({"key_histories": len(hist), "realm_histories": ncase, "programs": len(progs), "hostile_histories": len(HISTORIES),
-                        "statics": len(inventory), "statics_unclassified": unclassified,
+                        "skipped_budget_exhausted": budget_skips, "statics": len(inventory), "statics_unclassified": unclassified,
                         "statics_by_class": {str(c): sum(1 for i in inventory if i.get("class") == c) for c in range(8)}})
     ck.finish()
